@@ -803,9 +803,15 @@ type lgProc struct {
 	ev     []string
 }
 
-func newLgProc() *lgProc                            { return &lgProc{shares: map[int][]byte{}} }
-func (p *lgProc) PrivateSend(dest int, data []byte) { p.shares[dest] = append([]byte{}, data...) }
-func (p *lgProc) Broadcast(data []byte)             { p.bcast = append(p.bcast, append([]byte{}, data...)) }
+func newLgProc() *lgProc { return &lgProc{shares: map[int][]byte{}} }
+func (p *lgProc) PrivateSend(dest int, data []byte) {
+	p.shares[dest] = append([]byte{}, data...)
+	sim.Scribble(data)
+}
+func (p *lgProc) Broadcast(data []byte) {
+	p.bcast = append(p.bcast, append([]byte{}, data...))
+	sim.Scribble(data)
+}
 func (p *lgProc) Disqualify(i int, l string) {
 	p.ev = append(p.ev, fmt.Sprintf("disqualify %d: %s", i, l))
 }
